@@ -248,6 +248,12 @@ def run(ctx):
     amount_limit_of_transactions(ctx, res)
     model = ctx.driver.ask(ops)
     kit.compare(res, ops, impl, model)
+    # the limit on what a block creates when fees are involved (rewards claiming fees of other blocks, of other states, of no
+    # transaction at all): candidate blocks on random trees through full validation, the C02 monitors
+    from . import ledger
+    rule_ = res.rule
+    ledger.run_ledger(ctx, "C16", res=res, n_trees=ctx.scale(2, 6), per_tree=ctx.scale(44, 200), with_tall=False)
+    res.rule = rule_
     res.sample({"op": "subsidy 1050000", "impl": str(get_block_subsidy(1050000))})
     res.sample({"op": "subsidy 31499999", "impl": str(get_block_subsidy(31499999))})
     res.sample({"sum over heights 0..31500005": total})
